@@ -241,6 +241,166 @@ def m_from_elem_box(it, c, a):
     raise Unsupported(f"vec! literal of {arr!r}")
 
 
+def m_windows(it, c, a):
+    v = val(a[0]); n = pykey(a[1])
+    return PIter([ValRef(PVec(v.items[i:i + n])) for i in range(0, max(0, len(v.items) - n + 1))])
+
+
+def m_chunks(it, c, a):
+    v = val(a[0]); n = pykey(a[1])
+    return PIter([ValRef(PVec(v.items[i:i + n])) for i in range(0, len(v.items), n)])
+
+
+def default_for(ty):
+    t = re.sub(r"^std::(collections|vec|option)::", "", ty.strip())
+    if re.match(r"^(BTree|Hash)Set<", t): return PSet()
+    if re.match(r"^(BTree|Hash)Map<", t): return PMap()
+    if t.startswith(("Vec<", "VecDeque<")): return PVec()
+    if t in ("usize", "u64", "isize", "i64"): return z3.BitVecVal(0, 64)
+    if t in ("u32", "i32"): return z3.BitVecVal(0, 32)
+    if t == "bool": return z3.BoolVal(False)
+    raise Unsupported("default value of " + ty[:60])
+
+
+def m_unwrap_or_default(it, c, a):
+    o = val(a[0])
+    if o.variant == 1: return o.fields[0]
+    m = re.search(r"Option::<(.*)>::unwrap_or_default$", c)
+    return default_for(m.group(1))
+
+
+def m_set_op(kind):
+    def f(it, c, a):
+        x, y = val(a[0]), val(a[1])
+        lx, ly = set_live(it, x), set_live(it, y)
+        if kind == "difference": ks = [k for k in lx if k not in ly]
+        elif kind == "intersection": ks = [k for k in lx if k in ly]
+        elif kind == "union": ks = sorted(set(lx) | set(ly))
+        else: ks = sorted(set(lx) ^ set(ly))
+        return PIter([ValRef(bvkey(k)) for k in ks])
+    return f
+
+
+def m_set_is_subset(it, c, a):
+    x, y = set_live(it, val(a[0])), set_live(it, val(a[1]))
+    return z3.BoolVal(all(k in y for k in x))
+
+
+def m_set_is_disjoint(it, c, a):
+    x, y = set_live(it, val(a[0])), set_live(it, val(a[1]))
+    return z3.BoolVal(not (set(x) & set(y)))
+
+
+def m_vec_retain(it, c, a):
+    v = val(a[0]); keep = []
+    for i in range(len(v.items)):
+        if truth(it, it.call_closure(a[1], [IdxRef(v, i)])): keep.append(v.items[i])
+    v.items = keep; return None
+
+
+def m_vec_extend(it, c, a):
+    v = val(a[0]); o = val(a[1])
+    if isinstance(o, PVec): v.items += list(o.items)
+    elif isinstance(o, PIter):
+        while True:
+            ok, x = o.pull(it)
+            if not ok: break
+            v.items.append(x)
+    elif isinstance(o, PSet): v.items += [bvkey(k) for k in set_live(it, o)]
+    else: raise Unsupported(f"extend from {o!r}")
+    return None
+
+
+def m_vec_insert(it, c, a):
+    v = val(a[0]); i = pykey(a[1])
+    if i > len(v.items): raise Panic("insertion index out of bounds")
+    v.items.insert(i, a[2]); return None
+
+
+def m_vec_remove(it, c, a):
+    v = val(a[0]); i = pykey(a[1])
+    if i >= len(v.items): raise Panic("removal index out of bounds")
+    return v.items.pop(i)
+
+
+def m_vec_truncate(it, c, a):
+    v = val(a[0]); del v.items[pykey(a[1]):]; return None
+
+
+def m_vec_clear(it, c, a): val(a[0]).items.clear(); return None
+
+
+def m_vec_sort(it, c, a):
+    v = val(a[0]); v.items.sort(key=lambda x: pykey(x)); return None
+
+
+def m_vec_dedup(it, c, a):
+    v = val(a[0]); out = []
+    for x in v.items:
+        if not out or pykey(out[-1]) != pykey(x): out.append(x)
+    v.items = out; return None
+
+
+def m_slice_range(it, c, a):
+    v = val(a[0]); r = val(a[1])
+    lo = pykey(r.fields[0]) if len(r.fields) > 0 and r.name in ("Range", "RangeFrom") else 0
+    hi = pykey(r.fields[1]) if r.name == "Range" else (pykey(r.fields[0]) if r.name == "RangeTo" else len(v.items))
+    ok = lo <= hi <= len(v.items)
+    if "::get" in c:
+        return some(PVec(v.items[lo:hi])) if ok else none()
+    if not ok: raise Panic("slice index out of range")
+    return PVec(v.items[lo:hi])
+
+
+def m_count(it, c, a):
+    r = val(a[0]); n = 0
+    while True:
+        ok, x = r.pull(it)
+        if not ok: return z3.BitVecVal(n, 64)
+        n += 1
+
+
+def m_iter_last(it, c, a):
+    r = val(a[0]); last = None; got = False
+    while True:
+        ok, x = r.pull(it)
+        if not ok: return some(last) if got else none()
+        last = x; got = True
+
+
+def m_take(it, c, a):
+    r = val(a[0]); n = pykey(a[1])
+    if r.ops: raise Unsupported("take after adaptors")
+    r.items = r.items[:r.pos + n]; return r
+
+
+def m_chain(it, c, a):
+    r, o = val(a[0]), val(a[1])
+    if r.ops or (isinstance(o, PIter) and o.ops): raise Unsupported("chain after adaptors")
+    if not isinstance(o, PIter): o = m_into_iter_generic(it, "<&x as IntoIterator>::into_iter", [o])
+    return PIter(r.items[r.pos:] + o.items[o.pos:])
+
+
+def m_zip(it, c, a):
+    r, o = val(a[0]), val(a[1])
+    if not isinstance(o, PIter): o = m_into_iter_generic(it, "<&x as IntoIterator>::into_iter", [o])
+    if r.ops or o.ops: raise Unsupported("zip after adaptors")
+    xs, ys = r.items[r.pos:], o.items[o.pos:]
+    return PIter([Agg("tuple", "()", [x, y]) for x, y in zip(xs, ys)])
+
+
+def m_minmax(kind):
+    def f(it, c, a):
+        r = val(a[0]); xs = []
+        while True:
+            ok, x = r.pull(it)
+            if not ok: break
+            xs.append(x)
+        if not xs: return none()
+        return some((min if kind == "min" else max)(xs, key=lambda x: pykey(x)))
+    return f
+
+
 class IdxRef:
     def __init__(self, v, i): self.v = v; self.i = i
     def get(self): return self.v.items[self.i]
@@ -456,6 +616,31 @@ MODELS = [
     (R(r"^<\[.*\] as (std::ops::)?Index(Mut)?<usize>>::index(_mut)?$"), m_vec_index),
     (R(r"^<Vec<.*> as Deref(Mut)?>::deref(_mut)?$"), m_iter_identity),
     (R(r"^<Vec<.*> as (std::ops::)?Index(Mut)?<usize>>::index(_mut)?$"), m_vec_index),
+    (R(r"slice::<impl \[.*\]>::windows$"), m_windows),
+    (R(r"slice::<impl \[.*\]>::chunks$"), m_chunks),
+    (R(r"Option::<.*>::unwrap_or_default$"), m_unwrap_or_default),
+    (R(r"^(?:BTreeSet|HashSet)::<.*>::difference$"), m_set_op("difference")),
+    (R(r"^(?:BTreeSet|HashSet)::<.*>::intersection$"), m_set_op("intersection")),
+    (R(r"^(?:BTreeSet|HashSet)::<.*>::union$"), m_set_op("union")),
+    (R(r"^(?:BTreeSet|HashSet)::<.*>::symmetric_difference$"), m_set_op("symmetric_difference")),
+    (R(r"^(?:BTreeSet|HashSet)::<.*>::is_subset$"), m_set_is_subset),
+    (R(r"^(?:BTreeSet|HashSet)::<.*>::is_disjoint$"), m_set_is_disjoint),
+    (R(r"^Vec::<.*>::retain::<"), m_vec_retain),
+    (R(r"^<Vec<.*> as Extend<.*>>::extend::<|^Vec::<.*>::extend_from_slice$|^Vec::<.*>::append$"), m_vec_extend),
+    (R(r"^Vec::<.*>::insert$"), m_vec_insert),
+    (R(r"^Vec::<.*>::remove$"), m_vec_remove),
+    (R(r"^Vec::<.*>::truncate$"), m_vec_truncate),
+    (R(r"^Vec::<.*>::clear$|^VecDeque::<.*>::clear$"), m_vec_clear),
+    (R(r"slice::<impl \[.*\]>::sort(_unstable)?$"), m_vec_sort),
+    (R(r"^Vec::<.*>::dedup$"), m_vec_dedup),
+    (R(r"slice::<impl \[.*\]>::get::<std::ops::Range(From|To)?<usize>>$|^<\[.*\] as (std::ops::)?Index<std::ops::Range(From|To)?<usize>>>::index$|^<Vec<.*> as (std::ops::)?Index<std::ops::Range(From|To)?<usize>>>::index$"), m_slice_range),
+    (R(r" as Iterator>::count$"), m_count),
+    (R(r" as Iterator>::last$"), m_iter_last),
+    (R(r" as Iterator>::take$"), m_take),
+    (R(r" as Iterator>::chain::<"), m_chain),
+    (R(r" as Iterator>::zip::<"), m_zip),
+    (R(r" as Iterator>::min$"), m_minmax("min")),
+    (R(r" as Iterator>::max$"), m_minmax("max")),
     (R(r"box_assume_init_into_vec_unsafe"), m_from_elem_box),
     (R(r"^Box::<\[.*\]>::new_uninit$"), m_new_uninit),
     (R(r"^VecDeque::<.*>::push_back$"), m_dq_push_back),
